@@ -11,6 +11,8 @@ executions are checked against the specification at every call, not only where a
 import json
 import os
 import threading
+import weakref
+import zlib
 
 import numpy as np
 
@@ -38,23 +40,131 @@ def _arr(a):
   return np.asarray(a, dtype=float).tolist()
 
 
+_LC_MAX = int(os.environ.get('VERIF_TRACE_MAXLIFE', '8000'))
+_lc_count = [0]
+_objs = weakref.WeakKeyDictionary()
+_objseq = [0]
+_QUERIES = ('predict', 'decision_function', 'score', 'transform', 'pair_distance', 'pair_score', 'score_pairs',
+            'get_metric', 'get_mahalanobis_matrix')
+
+
+_NOT_A_QUERY = ('score', 'fit', 'calibrate_threshold', 'set_threshold')
+
+
+def _crc(b):
+  return zlib.crc32(b) & 0x3fffffff
+
+
+def _token(v):
+  if v is None or isinstance(v, (bool, int, float, str)):
+    return repr(v)
+  if isinstance(v, np.ndarray):
+    return ('arr', id(v), _crc(np.ascontiguousarray(v).tobytes()), v.shape, str(v.dtype))
+  if isinstance(v, (list, tuple)):
+    return ('seq', id(v), repr(v)[:2000])
+  return ('obj', id(v), type(v).__name__)
+
+
+def _snapshot(self):
+  """cheap projection of the object's abstract state: fitted?, model digest, threshold_, n_features_in_, parameters digest"""
+  L = self.__dict__.get('components_')
+  fitted = L is not None
+  dig = 0
+  if fitted:
+    try:
+      A = np.ascontiguousarray(np.asarray(L))
+      dig = 1 + _crc(A.tobytes() + repr(A.shape).encode())
+    except Exception:
+      dig = 1
+  thr = self.__dict__.get('threshold_')
+  try:
+    thr = None if thr is None else float(thr)
+  except Exception:
+    thr = None
+  nf = self.__dict__.get('n_features_in_')
+  try:
+    par = _crc(repr(sorted((k, _token(v)) for k, v in self.get_params(deep=False).items())).encode())
+  except Exception:
+    par = -1
+  return {'fitted': bool(fitted), 'dig': int(dig), 'thr': thr, 'nfeat': int(nf) if isinstance(nf, (int, np.integer)) else -1,
+          'par': int(par)}
+
+
+def _fit_dim(self, args):
+  """number of features of the points handed to fit (formed data, or indices into an array preprocessor); -1 = unknown"""
+  from metric_learn import base_metric as bm
+  try:
+    a = np.asarray(args[0])
+    tup = isinstance(self, (bm._PairsClassifierMixin, bm._TripletsClassifierMixin, bm._QuadrupletsClassifierMixin))
+    formed = 3 if tup else 2
+    if a.ndim == formed and a.dtype.kind in 'fiu':
+      return int(a.shape[-1])
+    if a.ndim == formed - 1 and self.preprocessor is not None and not callable(self.preprocessor):
+      P = np.asarray(self.preprocessor)
+      if P.ndim == 2:
+        return int(P.shape[1])
+  except Exception:
+    pass
+  return -1
+
+
+def _emit_life(self, name, args, before, after, exc, out):
+  if _OUT is None or _lc_count[0] >= _LC_MAX:
+    return
+  if not type(self).__module__.startswith('metric_learn'):
+    return
+  _lc_count[0] += 1
+  if self not in _objs:
+    _objseq[0] += 1
+    _objs[self] = _objseq[0]
+  from metric_learn import base_metric as bm
+  rec = {'ev': 'Life', 'obj': '%d.%d' % (os.getpid(), _objs[self]), 'cls': type(self).__name__, 'act': name,
+         'pairs_classifier': isinstance(self, bm._PairsClassifierMixin),
+         'exc': exc, 'before': before, 'after': after,
+         'test': os.environ.get('PYTEST_CURRENT_TEST', '').rsplit(' (', 1)[0]}
+  if name == 'fit':
+    rec['d'] = _fit_dim(self, args)
+    rec['ret_self'] = out is self
+  if name == 'set_threshold':
+    v = args[0] if args else None
+    rec['arg'] = float(v) if isinstance(v, (int, float, np.integer, np.floating)) and not isinstance(v, bool) else None
+  with open('%s.life.%d' % (_OUT, os.getpid()), 'a') as f:
+    f.write(json.dumps(rec) + '\n')
+
+
 def _wrap(cls, name, recorder):
-  orig = getattr(cls, name)
+  """one wrapper per public method.  Life-cycle events are emitted for OUTERMOST calls (counter `d`); the call recorders
+  fire for query calls not nested in another query (counter `c`; fit, calibrate_threshold and score may enclose them)."""
+  orig = cls.__dict__[name] if name in cls.__dict__ else getattr(cls, name)
 
   def wrapper(self, *args, **kwargs):
+    outer = _depth() == 0
+    before = _snapshot(self) if outer else None
     _state.d = _depth() + 1
+    if name not in _NOT_A_QUERY:
+      _state.c = getattr(_state, 'c', 0) + 1
+    out = None
+    exc = ''
     try:
       out = orig(self, *args, **kwargs)
+      return out
+    except BaseException as e:
+      exc = type(e).__name__
+      raise
     finally:
       _state.d -= 1
-    if _depth() == 0:
+      if name not in _NOT_A_QUERY:
+        _state.c -= 1
       try:
-        recorder(self, name, args, out)
+        if outer:
+          _emit_life(self, name, args, before, _snapshot(self), exc, out)
+        if recorder is not None and exc == '' and getattr(_state, 'c', 0) == 0:
+          recorder(self, name, args, out)
       except Exception:
         pass          # recording must never disturb a test
-    return out
   wrapper.__name__ = name
   wrapper.__doc__ = orig.__doc__
+  wrapper.__wrapped__ = orig
   setattr(cls, name, wrapper)
 
 
@@ -117,16 +227,30 @@ def _rec_matrix(self, name, args, out):
 
 
 def _install():
+  import metric_learn
   from metric_learn import base_metric as bm
   for m in ('pair_distance', 'pair_score', 'score_pairs'):
     _wrap(bm.MahalanobisMixin, m, _rec_pairs)
   _wrap(bm.MahalanobisMixin, 'transform', _rec_transform)
+  _wrap(bm.MahalanobisMixin, 'get_mahalanobis_matrix', _rec_matrix)
+  _wrap(bm.MahalanobisMixin, 'get_metric', None)
   _wrap(bm._PairsClassifierMixin, 'decision_function', _rec_pairs)
   _wrap(bm._PairsClassifierMixin, 'predict', _rec_pairs)
-  _wrap(bm.MahalanobisMixin, 'get_mahalanobis_matrix', _rec_matrix)
+  for m in ('score', 'set_threshold', 'calibrate_threshold'):
+    _wrap(bm._PairsClassifierMixin, m, None)
   for c in (bm._TripletsClassifierMixin, bm._QuadrupletsClassifierMixin):
     _wrap(c, 'decision_function', _rec_tuples)
     _wrap(c, 'predict', _rec_tuples)
+    _wrap(c, 'score', None)
+  # every concrete estimator's own fit
+  seen = set()
+  for nm in metric_learn.__all__:
+    cls = getattr(metric_learn, nm, None)
+    if isinstance(cls, type):
+      for k in cls.__mro__:
+        if k.__module__.startswith('metric_learn') and 'fit' in k.__dict__ and k not in seen:
+          seen.add(k)
+          _wrap(k, 'fit', None)
 
 
 if _OUT is not None:
